@@ -183,7 +183,7 @@ theorem filterMap_length {α β} (f : α → Option β) (l : List α) (h : ∀ x
   | nil => rfl
   | cons x r ih =>
     obtain ⟨b, hb⟩ := h x (by simp)
-    simp [List.filterMap_cons, hb, ih (fun y hy => h y (List.mem_cons_of_mem _ hy))]
+    simp [hb, ih (fun y hy => h y (List.mem_cons_of_mem _ hy))]
 
 /-! ### index invariant -/
 
